@@ -7,7 +7,7 @@ integer-only operators, and typed store."""
 import os
 import re
 
-from lib.mir import op_place
+from lib.mir import op_const, op_place
 from rules import tables
 
 OP = "lang::token::Operator"
@@ -83,6 +83,11 @@ def run(ctx):
     ctx.rule("C02.g", "conversion to Integer (assignment to a % variable, \\, MOD, logical "
              "operators, CINT, subscripts) floors and range-tests a Single in f32 and a Double in "
              "f64: no narrowing float conversion feeds the float->i16 cast (see C08.e)")
+    ctx.rule("C02.i", "literal typing in BasicLexer::number: the decorators ! # % build Single / "
+             "Double / Integer, more than 7 digits builds a Double, an undecorated Integer needs "
+             "parse::<i16>() to succeed, and every boolean flag the function tests (exponent "
+             "seen, decimal point seen) can actually become true")
+    rule_i(ctx, cr)
     from rules import c08
 
     class _P:
@@ -97,6 +102,70 @@ def run(ctx):
     conv = cr.need_fn("<i16 as std::convert::TryFrom<mach::val::Val>>::try_from")
     ctx.touch(conv)
     ctx.floor("C02.g", "float->i16 casts in the Val->Integer conversion", c08.rule_e(_P(ctx), conv), 2)
+
+
+def rule_i(ctx, cr):
+    f = cr.need_fn("lang::lex::BasicLexer::number")
+    ctx.touch(f)
+    LIT = "lang::token::Literal"
+    want = {"!": "Single", "#": "Double", "%": "Integer"}
+    seen = {}
+    by_digits = False
+    int_parsed = None
+    pos7 = {("Gt", "7", True), ("Ge", "8", True), ("Le", "7", False), ("Lt", "8", False)}
+    for b, i, st in f.aggregates(LIT):
+        v = st["rv"]["variant"]
+        suffix = None
+        for c in f.conds_at(b):
+            if c[0] != "eq":
+                continue
+            m = re.match(r"^\(var:\w+ Eq const:'([!#%])'\)$", str(c[1]))
+            if m and c[2] is True:
+                suffix = m.group(1)
+            m = re.match(r"^\(var:\w+ (Gt|Ge|Le|Lt) const:(\d+)\)$", str(c[1]))
+            if m and v == "Double":
+                if (m.group(1), m.group(2), c[2]) in pos7:
+                    by_digits = True
+                else:
+                    ctx.bad("C02.i", "number/double-threshold", st["span"],
+                            "an undecorated literal becomes a Double under `%s` = %s (documented: "
+                            "more than 7 digits)" % (c[1], c[2]))
+        if suffix:
+            seen[suffix] = v
+        elif v == "Integer":
+            int_parsed = any(c[0] == "eq" and c[2] is True and "Result::<T, E>::is_ok" in str(c[1])
+                             and "::parse" in str(c[1]) for c in f.conds_at(b))
+    for ch, v in sorted(want.items()):
+        ctx.check(seen.get(ch) == v, "C02.i", "number/decorator/%s" % ch, f.span,
+                  "`%s` builds Literal::%s" % (ch, v),
+                  "a literal decorated with %s is typed %s (documented: %s)" % (ch, seen.get(ch), v))
+    ctx.check(by_digits, "C02.i", "number/more-than-7-digits-is-double", f.span,
+              "Literal::Double is built when the digit count exceeds 7")
+    ctx.check(int_parsed is True, "C02.i", "number/integer-must-parse-as-i16", f.span,
+              "an undecorated Literal::Integer is built only when parse::<i16>() succeeds",
+              "an undecorated literal is typed Integer without the i16 range test")
+    # flags
+    tested = set()
+    for b in f.rpo():
+        for c in f.conds_at(b):
+            m = re.match(r"^var:(\w+)$", str(c[1])) if c[0] == "eq" else None
+            if m:
+                tested.add(m.group(1))
+    for name in sorted(tested):
+        ls = f.locals_named(name)
+        if not ls or f.local_ty(ls[0]) != "bool":
+            continue
+        vals = []
+        for b, i, st in f.assigns():
+            if st["place"]["local"] in ls and not st["place"]["proj"]:
+                cv = op_const(st["rv"]["op"]) if st["rv"]["k"] == "use" else None
+                vals.append(cv.get("bool") if cv else "computed")
+        ctx.check(any(v is not False for v in vals), "C02.i", "number/flag-can-be-set#%d"
+                  % (sorted(tested).index(name) + 1), f.span,
+                  "flag `%s` is assigned %s" % (name, vals),
+                  "the flag `%s` of BasicLexer::number is tested but only ever assigned false: "
+                  "the digits of an exponent count towards the 7-digit rule and an E-literal "
+                  "that fits 16 bits is typed Integer" % name)
 
 
 def rule_a(ctx, cr):
@@ -364,6 +433,26 @@ def rule_e(ctx, cr):
                     r = f.variants_at(c.bb, "_2")
                     if l and r and len(l) == 1 and len(r) == 1:
                         cells.setdefault((next(iter(l)), next(iter(r))), set()).add(m.group(1))
+        if name == "power":
+            # the Single result of Integer ^ Integer is for NEGATIVE exponents only
+            neg = {("Ge", "0", False), ("Lt", "0", True), ("Gt", "-1", False), ("Le", "-1", True)}
+            for b, i, st in f.aggregates(VAL):
+                if st["rv"]["variant"] != "Single" or f.variants_at(b, "_1") != {"Integer"} \
+                        or f.variants_at(b, "_2") != {"Integer"}:
+                    continue
+                tests = []
+                for c in f.conds_at(b):
+                    m = re.match(r"^\(place:\(_2 as Integer\)\.0 (\w+) const:(-?\d+)\)$", str(c[1]))
+                    if c[0] == "eq" and m:
+                        tests.append((m.group(1), m.group(2), c[2]))
+                if not tests:
+                    ctx.notes.append("power: Integer^Integer Single result under no exponent test")
+                    continue
+                ctx.check(all(t in neg for t in tests), "C02.e", "power/Integer,Integer/single-only-"
+                          "for-negative-exponent", st["span"],
+                          "the Single path is taken for exponent < 0",
+                          "Integer ^ Integer gives a Single under %s: a non-negative exponent "
+                          "(X^0) no longer yields an Integer" % tests)
         for L in NUM:
             for R in NUM:
                 n += 1
